@@ -36,6 +36,21 @@ import (
 
 var epoch = time.Date(2012, 9, 12, 0, 0, 0, 0, time.UTC)
 
+// The results must not depend on the time zone of the process: the calls into the library
+// are made with time.Local set to each of these in turn (restored afterwards).
+var zones = []*time.Location{time.UTC, time.FixedZone("east", 2*3600), time.FixedZone("west", -8*3600), time.FixedZone("half", 5*3600+1800)}
+var zoneTick int
+
+func withZone(f func()) string {
+	z := zones[zoneTick%len(zones)]
+	zoneTick++
+	old := time.Local
+	time.Local = z
+	defer func() { time.Local = old }()
+	f()
+	return z.String()
+}
+
 var dirs = []string{"minute", "hour", "day", "changesets"}
 
 // ---------------------------------------------------------------- the stand-in server
@@ -135,9 +150,34 @@ func (w *world) rearm(budget int) {
 
 // ---------------------------------------------------------------- state file bodies
 
+// longList: a txnActiveList as the server writes it under load (kilobytes of transaction ids)
+func longList(n int, seed int) string {
+	var sb strings.Builder
+	for i := 0; i < n; i++ {
+		if i > 0 {
+			sb.WriteByte(',')
+		}
+		sb.WriteString(strconv.Itoa(836439008 + seed*7 + i*3))
+	}
+	return sb.String()
+}
+
 func intervalBody(seq uint64, ts int64, variant int) []byte {
 	t := epoch.Add(time.Duration(ts)).UTC()
 	stamp := t.Format("2006-01-02T15\\:04\\:05Z")
+	switch variant % 7 {
+	case 3:
+		// a long active list BEFORE the lines that matter (2-6 KB)
+		return []byte(fmt.Sprintf("#%s\ntxnActiveList=%s\ntxnMaxQueried=836439235\nsequenceNumber=%d\ntxnReadyList=%s\ntimestamp=%s\ntxnMax=836439235\n",
+			t.Format("Mon Jan 02 15:04:05 UTC 2006"), longList(200+variant%400, variant), seq, longList(20, variant), stamp))
+	case 4:
+		// the standard order with a long active list at the end
+		return []byte(fmt.Sprintf("#%s\ntxnMaxQueried=836439235\nsequenceNumber=%d\ntimestamp=%s\ntxnReadyList=\ntxnMax=836439235\ntxnActiveList=%s\n",
+			t.Format("Mon Jan 02 15:04:05 UTC 2006"), seq, stamp, longList(300, variant)))
+	case 5:
+		return []byte(fmt.Sprintf("#%s\ntxnReadyList=%s\nsequenceNumber=%d\ntxnActiveList=%s\ntimestamp=%s\n",
+			t.Format("Mon Jan 02 15:04:05 UTC 2006"), longList(120, variant), seq, longList(150, variant+1), stamp))
+	}
 	switch variant % 3 {
 	case 0:
 		return []byte(fmt.Sprintf("#%s\ntxnMaxQueried=836439235\nsequenceNumber=%d\ntimestamp=%s\ntxnReadyList=\ntxnMax=836439235\ntxnActiveList=836439008\n",
@@ -167,6 +207,8 @@ type dirSpec struct {
 	ts    []*int64 // nil = missing
 	curOK bool
 	class string
+	// set by install: size of the largest state file served
+	maxBody int
 }
 
 func (d *dirSpec) cur() uint64 { return d.base + uint64(len(d.ts)) - 1 }
@@ -182,6 +224,9 @@ func (d *dirSpec) install(w *world, budget int) {
 			w.files[n] = changesetBody(n-1, *p, i) // the number inside is one less than the file name
 		} else {
 			w.files[n] = intervalBody(n, *p, i)
+		}
+		if len(w.files[n]) > d.maxBody {
+			d.maxBody = len(w.files[n])
 		}
 	}
 	if d.curOK {
@@ -239,7 +284,10 @@ func specSearch(d *dirSpec, min uint64, t int64) (uint64, int64) {
 func searchCase(w *world, ds *replication.Datasource, d *dirSpec, t int64, min uint64) *wire.Case {
 	budget := 4*len(d.ts) + 200
 	w.rearm(budget)
-	n, st, err := stateAt(ds, d.kind, epoch.Add(time.Duration(t)))
+	var n uint64
+	var st *replication.State
+	var err error
+	zone := withZone(func() { n, st, err = stateAt(ds, d.kind, epoch.Add(time.Duration(t))) })
 	w.mu.Lock()
 	trace := append([]int64(nil), w.trace...)
 	paths := append([]string(nil), w.paths...)
@@ -274,7 +322,7 @@ func searchCase(w *world, ds *replication.Datasource, d *dirSpec, t int64, min u
 	}
 	c.Int(errclass).Int(seq).Int(ts).Ints(trace)
 	desc := map[string]interface{}{"kind": dirs[d.kind], "first_seq": d.base, "stamps_ns_since_2012-09-12": stamps,
-		"current_state_file": d.curOK, "t": t, "err": es, "seq": seq, "ts": ts, "requests": trace}
+		"current_state_file": d.curOK, "largest_state_file_bytes": d.maxBody, "t": t, "process_time_zone": zone, "err": es, "seq": seq, "ts": ts, "requests": trace}
 	if len(paths) > 0 {
 		desc["first_request"] = paths[0]
 		desc["last_request"] = paths[len(paths)-1]
@@ -554,31 +602,33 @@ func decodeCase(w *world, ds *replication.Datasource, rng *rand.Rand, kind int) 
 	defer cancel()
 	var st *replication.State
 	var err error
-	if cur {
-		w.cur = body
-		switch kind {
-		case 0:
-			_, st, err = ds.CurrentMinuteState(ctx)
-		case 1:
-			_, st, err = ds.CurrentHourState(ctx)
-		case 2:
-			_, st, err = ds.CurrentDayState(ctx)
-		default:
-			_, st, err = ds.CurrentChangesetState(ctx)
+	zone := withZone(func() {
+		if cur {
+			w.cur = body
+			switch kind {
+			case 0:
+				_, st, err = ds.CurrentMinuteState(ctx)
+			case 1:
+				_, st, err = ds.CurrentHourState(ctx)
+			case 2:
+				_, st, err = ds.CurrentDayState(ctx)
+			default:
+				_, st, err = ds.CurrentChangesetState(ctx)
+			}
+		} else {
+			w.files[n] = body
+			switch kind {
+			case 0:
+				st, err = ds.MinuteState(ctx, replication.MinuteSeqNum(n))
+			case 1:
+				st, err = ds.HourState(ctx, replication.HourSeqNum(n))
+			case 2:
+				st, err = ds.DayState(ctx, replication.DaySeqNum(n))
+			default:
+				st, err = ds.ChangesetState(ctx, replication.ChangesetSeqNum(n))
+			}
 		}
-	} else {
-		w.files[n] = body
-		switch kind {
-		case 0:
-			st, err = ds.MinuteState(ctx, replication.MinuteSeqNum(n))
-		case 1:
-			st, err = ds.HourState(ctx, replication.HourSeqNum(n))
-		case 2:
-			st, err = ds.DayState(ctx, replication.DaySeqNum(n))
-		default:
-			st, err = ds.ChangesetState(ctx, replication.ChangesetSeqNum(n))
-		}
-	}
+	})
 	c := &wire.Case{Class: "decode"}
 	c.Int(3).Int(int64(kind)).Bool(cur).Int(int64(n)).Int(int64(fileseq)).Int(ts)
 	seq, ots := int64(-1), int64(-1)
@@ -589,7 +639,7 @@ func decodeCase(w *world, ds *replication.Datasource, rng *rand.Rand, kind int) 
 		es = err.Error()
 	}
 	c.Bool(err == nil).Int(seq).Int(ots)
-	c.Desc = map[string]interface{}{"kind": dirs[kind], "current": cur, "file": n, "body": string(body), "stamp": ts, "err": es, "seq": seq, "ts": ots}
+	c.Desc = map[string]interface{}{"kind": dirs[kind], "current": cur, "file": n, "body": string(body), "stamp": ts, "process_time_zone": zone, "err": es, "seq": seq, "ts": ots}
 	consistent := (kind == 3 && fileseq == n-1) || (kind != 3 && fileseq == n)
 	if consistent && (err != nil || uint64(seq) != n || ots != ts) {
 		c.OracleFail = fmt.Sprintf("state file %d with stamp %d read as seq %d stamp %d err %q", n, ts, seq, ots, es)
@@ -740,6 +790,11 @@ func genDecB(rng *rand.Rand, kind int) decB {
 		lines := []kv{{"#", ""}, {"txnMaxQueried", fmt.Sprint(rng.Intn(1 << 30))}, {"sequenceNumber", fmt.Sprint(d.seq)},
 			{"timestamp", renderTime(2, d.t)}, {"txnReadyList", ""}, {"txnMax", fmt.Sprint(rng.Intn(1 << 30))}, {"txnActiveList", "836439008,836439010"}}
 		d.class = "decodeb/interval"
+		if rng.Intn(40) == 0 {
+			// kilobytes before the lines that matter
+			lines = append([]kv{{"txnActiveList", longList(150+rng.Intn(200), rng.Intn(100))}}, lines[:len(lines)-1]...)
+			d.class += "/large"
+		}
 		r := rng.Intn(10)
 		switch {
 		case r == 0:
@@ -892,7 +947,7 @@ func decodeBCase(w *world, ds *replication.Datasource, rng *rand.Rand, d decB) *
 	outcome := int64(0)
 	var st *replication.State
 	var err error
-	func() {
+	zone := withZone(func() {
 		defer func() {
 			if r := recover(); r != nil {
 				outcome = 2
@@ -919,7 +974,7 @@ func decodeBCase(w *world, ds *replication.Datasource, rng *rand.Rand, d decB) *
 		default:
 			st, err = ds.ChangesetState(ctx, replication.ChangesetSeqNum(n))
 		}
-	}()
+	})
 	if outcome == 0 && err != nil {
 		outcome = 1
 	}
@@ -939,7 +994,7 @@ func decodeBCase(w *world, ds *replication.Datasource, rng *rand.Rand, d decB) *
 	for _, v := range o {
 		c.Int(v)
 	}
-	c.Desc = map[string]interface{}{"kind": dirs[d.kind], "current": cur, "file": n, "body": d.body, "well_formed": d.wf,
+	c.Desc = map[string]interface{}{"kind": dirs[d.kind], "current": cur, "file": n, "body": d.body, "well_formed": d.wf, "process_time_zone": zone,
 		"intended_seq_inside": d.seq, "intended_time": fmt.Sprint(d.t), "outcome": []string{"state", "error", "panic"}[outcome], "err": es, "observed": o}
 	if d.wf {
 		want := d.seq
@@ -1074,12 +1129,12 @@ func main() {
 		}
 		return searchIdx[0]
 	}
-	plant(okSearch(3), func(c *wire.Case) { c.Toks[len(c.Toks)-1] += 2 })                  // last request number changed
-	plant(okSearch(7), func(c *wire.Case) { c.Toks = append(c.Toks, 2); bumpLen(c) })       // an extra request
-	plant(okSearch(11), func(c *wire.Case) { corruptSeq(c) })                               // returned sequence number + 1
-	plant(pathIdx[5], func(c *wire.Case) { c.Toks[len(c.Toks)-3] = uint64('1') })           // a digit of the data path
-	plant(decIdx[0], func(c *wire.Case) { c.Toks[len(c.Toks)-1] += 2 })                     // decoded stamp + 1ns
-	for _, i := range decBIdx { // a well-formed byte-level case read as a state: the decoded second + 1
+	plant(okSearch(3), func(c *wire.Case) { c.Toks[len(c.Toks)-1] += 2 })             // last request number changed
+	plant(okSearch(7), func(c *wire.Case) { c.Toks = append(c.Toks, 2); bumpLen(c) }) // an extra request
+	plant(okSearch(11), func(c *wire.Case) { corruptSeq(c) })                         // returned sequence number + 1
+	plant(pathIdx[5], func(c *wire.Case) { c.Toks[len(c.Toks)-3] = uint64('1') })     // a digit of the data path
+	plant(decIdx[0], func(c *wire.Case) { c.Toks[len(c.Toks)-1] += 2 })               // decoded stamp + 1ns
+	for _, i := range decBIdx {                                                       // a well-formed byte-level case read as a state: the decoded second + 1
 		if c := wr.Cases[i]; c.OracleFail == "" && c.Toks[len(c.Toks)-11] == 0 {
 			plant(i, func(c *wire.Case) { c.Toks[len(c.Toks)-4] += 2 })
 			plant(i, func(c *wire.Case) { c.Toks[len(c.Toks)-11] = 2 }) // "error" instead of a state
